@@ -9,7 +9,6 @@ from models import emphasis
 BLOCK_STARTS = [
     ('atx', re.compile(r' {0,3}#{1,6}([ \t]|$)')),
     ('thematic', re.compile(r' {0,3}([-_*])[ \t]*(\1[ \t]*){2,}$')),
-    ('list', re.compile(r' {0,3}([-+*]|\d{1,9}[.)])([ \t]|$)')),
     ('quote', re.compile(r' {0,3}>')),
     ('fence', re.compile(r' {0,3}(`{3,}|~{3,})')),
     ('html', re.compile(r' {0,3}<')),
@@ -17,6 +16,7 @@ BLOCK_STARTS = [
     ('indent', re.compile(r' {4}')),
     ('tab', re.compile(r'\t')),
 ]
+LIST_MARKER = re.compile(r' {0,3}([-+*]|\d{1,9}[.)])(?:$|[ \t]+(.*)$|[ \t]*$)')
 SETEXT = re.compile(r' {0,3}(=+|-+)[ \t]*$')
 # GFM table delimiter row: cells holding only hyphens with optional leading/trailing colon; a table needs one on line >= 2
 DELIMITER_ROW = re.compile(r'^\s*\|?\s*:?-+:?\s*(\|\s*:?-+:?\s*)*\|?\s*$')
@@ -29,6 +29,14 @@ def why_not_inert(lines):
     for i, l in enumerate(lines):
         if l.strip() == '':
             return 'blank-line'
+        m = LIST_MARKER.match(l)
+        if m:
+            # first line: any list item. Later lines: a list item interrupts a paragraph only if it is not empty and,
+            # when ordered, starts with 1 (spec 5.2); everything else is paragraph continuation text
+            if i == 0:
+                return 'block:list'
+            if (m.group(2) or '').strip() != '' and (not m.group(1)[0].isdigit() or int(m.group(1)[:-1]) == 1):
+                return 'block:list-interrupts-paragraph'
         for name, p in BLOCK_STARTS:
             if p.match(l):
                 return 'block:' + name
